@@ -1,0 +1,163 @@
+//go:build verif
+// +build verif
+
+package rjson
+
+import (
+	"github.com/willabides/rjson/internal/fp"
+)
+
+// Verification hooks (build tag "verif"): read-only access to unexported pieces. Nothing here changes behaviour.
+
+// VerifSkipValue runs the raw skipValue machine with an explicit stack.
+func VerifSkipValue(data []byte, stack []int) (int, []int, error) { return skipValue(data, stack) }
+
+// VerifSkipValueFast runs the raw skipValueFast machine with an explicit stack.
+func VerifSkipValueFast(data []byte, stack []int) (int, []int, error) {
+	return skipValueFast(data, stack)
+}
+
+// VerifHandleArrayValues runs the raw handleArrayValues machine with an explicit stack.
+func VerifHandleArrayValues(data []byte, h ArrayValueHandler, stack []int) (int, []int, error) {
+	return handleArrayValues(data, h, stack)
+}
+
+// VerifHandleObjectValues runs the raw handleObjectValues machine with an explicit stack.
+func VerifHandleObjectValues(data []byte, h ObjectValueHandler, stack []int) (int, []int, error) {
+	return handleObjectValues(data, h, stack)
+}
+
+// VerifAppendRemainderOfString exposes appendRemainderOfString.
+func VerifAppendRemainderOfString(data, dst []byte) ([]byte, int, error) {
+	return appendRemainderOfString(data, dst)
+}
+
+// VerifSkipFloatDec exposes skipFloatDec.
+func VerifSkipFloatDec(data []byte, p, pe int) (int, error) { return skipFloatDec(data, p, pe) }
+
+// VerifSkipFloatExp exposes skipFloatExp.
+func VerifSkipFloatExp(data []byte, p, pe int) (int, error) { return skipFloatExp(data, p, pe) }
+
+// VerifGetu4 exposes getu4.
+func VerifGetu4(data []byte) rune { return getu4(data) }
+
+// VerifUnescapeUnicodeChar exposes unescapeUnicodeChar.
+func VerifUnescapeUnicodeChar(s, data []byte) ([]byte, int, bool) { return unescapeUnicodeChar(s, data) }
+
+// VerifGrowBytesSliceCapacity exposes growBytesSliceCapacity.
+func VerifGrowBytesSliceCapacity(slice []byte, size int) []byte {
+	return growBytesSliceCapacity(slice, size)
+}
+
+// VerifCountWhitespace exposes countWhitespace.
+func VerifCountWhitespace(data []byte) int { return countWhitespace(data) }
+
+// VerifBufferStack returns the buffer's stack slice (not a copy).
+func VerifBufferStack(b *Buffer) []int { return b.stackBuf }
+
+// VerifSetBufferStack replaces the buffer's stack slice.
+func VerifSetBufferStack(b *Buffer, s []int) { b.stackBuf = s }
+
+// VerifErrClass maps the package's sentinel errors to a stable name; "" for nil, "other" for anything else.
+func VerifErrClass(err error) string {
+	switch err {
+	case nil:
+		return ""
+	case errMaxDepth:
+		return "maxDepth"
+	case errUnexpectedEOF:
+		return "unexpectedEOF"
+	case errInvalidString:
+		return "invalidString"
+	case errInvalidArray:
+		return "invalidArray"
+	case errInvalidObject:
+		return "invalidObject"
+	case errInvalidUInt:
+		return "invalidUInt"
+	case errInvalidInt:
+		return "invalidInt"
+	case errInvalidNumber:
+		return "invalidNumber"
+	case errNoValidToken:
+		return "noValidToken"
+	case errNotNull:
+		return "notNull"
+	case errNotBool:
+		return "notBool"
+	case errPOutOfRange:
+		return "pOutOfRange"
+	}
+	return "other"
+}
+
+// VerifTables returns copies of the package's byte tables and limits.
+func VerifTables() (ws [256]bool, tt [256]TokenType, dg, sb, eb [256]bool, skipDepth, readerDepth int) {
+	return whitespace, tokenTypes, digits, signBytes, expBytes, skipMaxDepth, valueReaderMaxDepth
+}
+
+// VerifReaderHints is a snapshot of a ValueReader's size hints and scratch capacities.
+type VerifReaderHints struct {
+	Depth, NewMapSize, LastMapSize, MaxMapSize, NewSliceSize, LastSliceSize int
+	FieldNameBufCap, StringBufCap, StackCap                                int
+}
+
+// VerifReaderState returns the reader's hints.
+func VerifReaderState(h *ValueReader) VerifReaderHints {
+	return VerifReaderHints{
+		Depth: h.depth, NewMapSize: h.newMapSize, LastMapSize: h.lastMapSize, MaxMapSize: h.maxMapSize,
+		NewSliceSize: h.newSliceSize, LastSliceSize: h.lastSliceSize,
+		FieldNameBufCap: cap(h.fieldNameBuf), StringBufCap: cap(h.stringBuf), StackCap: cap(h.buf.stackBuf),
+	}
+}
+
+// Compat oracles already present in the package (encoding/json based).
+
+// VerifSkipValueCompat exposes skipValueCompat.
+func VerifSkipValueCompat(data []byte) (int, error) { return skipValueCompat(data) }
+
+// VerifReadValueCompat exposes readValueCompat.
+func VerifReadValueCompat(data []byte) (interface{}, int, error) { return readValueCompat(data) }
+
+// Re-exports of the internal/fp hooks (internal packages cannot be imported from another module).
+
+// VerifFPReadFloat re-exports fp.VerifReadFloat.
+func VerifFPReadFloat(data []byte) (uint64, int, bool, bool, int, bool) { return fp.VerifReadFloat(data) }
+
+// VerifFPAtof64exact re-exports fp.VerifAtof64exact.
+func VerifFPAtof64exact(m uint64, e int, neg bool) (float64, bool) {
+	return fp.VerifAtof64exact(m, e, neg)
+}
+
+// VerifFPEiselLemire64 re-exports fp.VerifEiselLemire64.
+func VerifFPEiselLemire64(m uint64, e int, neg bool) (float64, bool) {
+	return fp.VerifEiselLemire64(m, e, neg)
+}
+
+// VerifFPDecimal re-exports fp.VerifDecimal.
+func VerifFPDecimal(data []byte) (uint64, bool, bool) { return fp.VerifDecimal(data) }
+
+// VerifFPDecimalState re-exports fp.VerifDecimalState.
+type VerifFPDecimalState = fp.VerifDecimalState
+
+// VerifFPDecimalSet re-exports fp.VerifDecimalSet.
+func VerifFPDecimalSet(data []byte) (fp.VerifDecimalState, bool) { return fp.VerifDecimalSet(data) }
+
+// VerifFPDecimalShift re-exports fp.VerifDecimalShift.
+func VerifFPDecimalShift(s fp.VerifDecimalState, k int) fp.VerifDecimalState {
+	return fp.VerifDecimalShift(s, k)
+}
+
+// VerifFPDecimalRounded re-exports fp.VerifDecimalRounded.
+func VerifFPDecimalRounded(s fp.VerifDecimalState) uint64 { return fp.VerifDecimalRounded(s) }
+
+// VerifFPParse re-exports fp.ParseJSONFloatPrefix.
+func VerifFPParse(data []byte) (float64, int, error) { return fp.ParseJSONFloatPrefix(data) }
+
+// VerifFPTables re-exports fp.VerifTables.
+func VerifFPTables() ([][2]uint64, int, int, []int, []string, []int, []float64, [256]bool) {
+	return fp.VerifTables()
+}
+
+// VerifFPConsts re-exports fp.VerifConsts.
+func VerifFPConsts() (uint, uint, int, int, int) { return fp.VerifConsts() }
